@@ -1,5 +1,408 @@
+/-
+  Lemmas/Cons.lean — helper lemmas for property C20 (the metric consumers agree with what happened).
+  Every counter of the consumers is an `RC` driven by the `Inc`s of SOME of the delivered callbacks, so each is
+  reduced to `ts.foldl RC.inc c` for the list `ts` of the selected event times, and the refinement of `RC` against
+  `SpecC13` (Lemmas/RC.lean) does the rest.
+-/
 import CircuitModel.Spec.C20
 import CircuitProofs.Lemmas.RC
 import CircuitProofs.Lemmas.F64
 namespace CM.Cons
+open CM CM.SpecC13 CM.SpecC20
+
+/-! ### `total` moves only in `Inc`, by one, without any side condition -/
+
+theorem clear_total (c : RC) (i : Nat) : (c.clear i).total = c.total := rfl
+
+theorem rollLoop_total (abs : Nat) : ∀ (k : Nat) (c : RC), (c.rollLoop abs k).total = c.total
+  | 0, _ => rfl
+  | k + 1, c => by
+    simp only [RC.rollLoop]
+    split
+    · exact (rollLoop_total abs k _).trans (clear_total _ _)
+    · rfl
+
+theorem advance_total (c : RC) (d : Int) : (c.advance d).1.total = c.total := by
+  have h1 := rollLoop_total (absIdx c.w d) c.n c
+  simp only [RC.advance]
+  split
+  · rfl
+  split
+  · rfl
+  split
+  · rfl
+  split
+  · split <;> rfl
+  · exact h1
+
+theorem inc_total (c : RC) (d : Int) : (c.inc d).total = c.total + 1 := by
+  have h1 := advance_total { c with total := c.total + 1 } d
+  simp only [RC.inc]
+  split
+  · rfl
+  · generalize RC.advance { c with total := c.total + 1 } d = p at h1 ⊢
+    obtain ⟨c1, r⟩ := p
+    cases r with
+    | none => exact h1
+    | some idx => exact h1
+
+/-- a counter driven by the increments `ts` (oldest first) -/
+def incAll (c : RC) (ts : List Int) : RC := ts.foldl RC.inc c
+
+theorem incAll_nil (c : RC) : incAll c [] = c := rfl
+theorem incAll_cons (c : RC) (t : Int) (ts : List Int) : incAll c (t :: ts) = incAll (c.inc t) ts := rfl
+
+theorem incAll_total : ∀ (ts : List Int) (c : RC), (incAll c ts).total = c.total + ts.length
+  | [], c => by simp [incAll_nil]
+  | t :: ts, c => by
+    rw [incAll_cons, incAll_total ts, inc_total, List.length_cons]
+    push_cast
+    omega
+
+/-! ### the delivered callbacks, projected -/
+
+def runOf : Emit → Option (Kind × Int × Int)
+  | .run k t d => some (k, t, d)
+  | _ => none
+
+def fbOf : Emit → Option (FbKind × Int)
+  | .fb k t _ => some (k, t)
+  | _ => none
+
+@[simp] theorem runOf_run (k : Kind) (t d : Int) : runOf (.run k t d) = some (k, t, d) := rfl
+@[simp] theorem runOf_fb (k : FbKind) (t d : Int) : runOf (.fb k t d) = none := rfl
+@[simp] theorem runOf_opened (t : Int) : runOf (.opened t) = none := rfl
+@[simp] theorem runOf_closed (t : Int) : runOf (.closed t) = none := rfl
+@[simp] theorem fbOf_run (k : Kind) (t d : Int) : fbOf (.run k t d) = none := rfl
+@[simp] theorem fbOf_fb (k : FbKind) (t d : Int) : fbOf (.fb k t d) = some (k, t) := rfl
+@[simp] theorem fbOf_opened (t : Int) : fbOf (.opened t) = none := rfl
+@[simp] theorem fbOf_closed (t : Int) : fbOf (.closed t) = none := rfl
+
+theorem foldl_add (emits : List Emit) : ∀ h : Hist,
+    emits.foldl Hist.add h = { run := h.run ++ emits.filterMap runOf, fb := h.fb ++ emits.filterMap fbOf } := by
+  induction emits with
+  | nil => intro h; simp
+  | cons e emits ih =>
+    intro h
+    rw [List.foldl_cons, ih]
+    cases e <;> simp [Hist.add, List.filterMap_cons]
+
+theorem hist_run (emits : List Emit) : (emits.foldl Hist.add {}).run = emits.filterMap runOf := by
+  rw [foldl_add]; simp
+
+theorem hist_fb (emits : List Emit) : (emits.foldl Hist.add {}).fb = emits.filterMap fbOf := by
+  rw [foldl_add]; simp
+
+/-- times of the run events of kind `k`, oldest first -/
+def timesOf (k : Kind) (l : List (Kind × Int × Int)) : List Int := (l.filter (·.1 == k)).map (·.2.1)
+def fbTimesOf (k : FbKind) (l : List (FbKind × Int)) : List Int := (l.filter (·.1 == k)).map (·.2)
+
+/-! ### selecting one counter -/
+
+def getR : Kind → RunStats → RC
+  | .success, r => r.successes
+  | .reject, r => r.rejects
+  | .failure, r => r.failures
+  | .shortCircuit, r => r.shortCircuits
+  | .timeout, r => r.timeouts
+  | .badRequest, r => r.badRequests
+  | .interrupt, r => r.interrupts
+
+def getF : FbKind → FbStats → RC
+  | .success, f => f.successes
+  | .reject, f => f.rejects
+  | .failure, f => f.failures
+
+theorem getR_onRun (k k' : Kind) (r : RunStats) (t d : Int) :
+    getR k (r.onRun k' t d) = if k' = k then (getR k r).inc t else getR k r := by
+  cases k <;> cases k' <;> rfl
+
+theorem getF_onFb (k k' : FbKind) (f : FbStats) (t : Int) :
+    getF k (f.onFb k' t) = if k' = k then (getF k f).inc t else getF k f := by
+  cases k <;> cases k' <;> rfl
+
+theorem feed_nil (a : All) : a.feed [] = a := rfl
+theorem feed_cons (a : All) (e : Emit) (emits : List Emit) : a.feed (e :: emits) = (a.onEmit e).feed emits := rfl
+
+theorem feed_getR (k : Kind) : ∀ (emits : List Emit) (a : All),
+    getR k (a.feed emits).run = incAll (getR k a.run) (timesOf k (emits.filterMap runOf))
+  | [], a => rfl
+  | e :: emits, a => by
+    rw [feed_cons, feed_getR k emits]
+    cases e with
+    | run k' t d =>
+      show incAll (getR k (a.run.onRun k' t d)) _ = _
+      rw [getR_onRun]
+      by_cases hk : k' = k
+      · subst hk
+        simp [timesOf, incAll_cons]
+      · have : (k' == k) = false := by simpa using hk
+        simp [timesOf, this, hk]
+    | fb k' t d => rfl
+    | opened t => rfl
+    | closed t => rfl
+
+theorem feed_getF (k : FbKind) : ∀ (emits : List Emit) (a : All),
+    getF k (a.feed emits).fb = incAll (getF k a.fb) (fbTimesOf k (emits.filterMap fbOf))
+  | [], a => rfl
+  | e :: emits, a => by
+    rw [feed_cons, feed_getF k emits]
+    cases e with
+    | fb k' t d =>
+      show incAll (getF k (a.fb.onFb k' t)) _ = _
+      rw [getF_onFb]
+      by_cases hk : k' = k
+      · subst hk
+        simp [fbTimesOf, incAll_cons]
+      · have : (k' == k) = false := by simpa using hk
+        simp [fbTimesOf, this, hk]
+    | run k' t d => rfl
+    | opened t => rfl
+    | closed t => rfl
+
+theorem getR_new (k : Kind) (n : Nat) (dur : Int) (pn : Nat) (pdur : Int) (psize : Nat) :
+    getR k (RunStats.new n dur pn pdur psize) = RC.new n (tdiv dur n) := by
+  cases k <;> rfl
+
+theorem getF_new (k : FbKind) (n : Nat) (dur : Int) : getF k (FbStats.new n dur) = RC.new n (tdiv dur n) := by
+  cases k <;> rfl
+
+/-- TotalSum of the counter of kind `k` after any history -/
+theorem total_getR (k : Kind) (n : Nat) (dur : Int) (pn : Nat) (pdur : Int) (psize : Nat) (mh : Int)
+    (emits : List Emit) :
+    (getR k ((All.new n dur pn pdur psize mh).feed emits).run).total = total (emits.foldl Hist.add {}) k := by
+  unfold total
+  rw [feed_getR, incAll_total, hist_run]
+  show (getR k (RunStats.new n dur pn pdur psize)).total + _ = _
+  rw [getR_new]
+  simp [RC.new, timesOf]
+
+theorem total_getF (k : FbKind) (n : Nat) (dur : Int) (pn : Nat) (pdur : Int) (psize : Nat) (mh : Int)
+    (emits : List Emit) :
+    (getF k ((All.new n dur pn pdur psize mh).feed emits).fb).total = fbTotal (emits.foldl Hist.add {}) k := by
+  unfold fbTotal
+  rw [feed_getF, incAll_total, hist_fb]
+  show (getF k (FbStats.new n dur)).total + _ = _
+  rw [getF_new]
+  simp [RC.new, fbTimesOf]
+
+/-! ### one counter against the list of increments it received -/
+
+theorem absIdx_mono {w d t : Int} (hw : 0 < w) (h : d ≤ t) : absIdx w d ≤ absIdx w t := by
+  unfold absIdx
+  exact Int.toNat_le_toNat (Int.ediv_le_ediv hw h)
+
+/-- the counter `c` has been driven by some counter history whose live increments are exactly `ts` (newest
+    first) and which never saw a bucket newer than `H` -/
+def KInv (n : Nat) (w : Int) (c : RC) (ts : List Int) (H : Nat) : Prop :=
+  ∃ hc, Inv n w c hc ∧ live hc = ts ∧ hi w hc ≤ H
+
+theorem KInv.new (n : Nat) (w : Int) (hn : 0 < n) (H : Nat) : KInv n w (RC.new n w) [] H :=
+  ⟨[], Inv.new n w hn, rfl, Nat.zero_le _⟩
+
+theorem KInv.inc {n : Nat} {w : Int} {c : RC} {ts : List Int} {H : Nat} (hn : 0 < n) (I : KInv n w c ts H)
+    (t : Int) (ht : absIdx w t ≤ H) : KInv n w (c.inc t) (t :: ts) H := by
+  obtain ⟨hc, I, hl, hh⟩ := I
+  refine ⟨.inc t :: hc, I.inc hn t, by rw [← hl]; rfl, ?_⟩
+  rw [hi_cons_time w hc (.inc t) t rfl]
+  split <;> omega
+
+theorem KInv.incAll {n : Nat} {w : Int} (hn : 0 < n) (hw : 0 < w) (now : Int) :
+    ∀ (ts : List Int) (c : RC) (ts0 : List Int), KInv n w c ts0 (absIdx w now) → (∀ t ∈ ts, t ≤ now) →
+      KInv n w (incAll c ts) (ts.reverse ++ ts0) (absIdx w now)
+  | [], _, _, I, _ => by simpa [incAll_nil] using I
+  | t :: ts, c, ts0, I, h => by
+    rw [incAll_cons, List.reverse_cons, List.append_assoc]
+    exact KInv.incAll hn hw now ts (c.inc t) (t :: ts0)
+      (I.inc hn t (absIdx_mono hw (h t List.mem_cons_self))) (fun t' ht' => h t' (List.mem_cons_of_mem _ ht'))
+
+/-- the window count of `SpecC13`, on a list of increment times -/
+theorem win_times (n : Nat) (w : Int) (L : Nat) (ts : List Int) :
+    win n ((ts.filter (fun d => decide (0 ≤ d))).map (absIdx w)) L
+      = ((ts.filter fun d => decide (0 ≤ d) && decide (absIdx w d + n > L)).length : Int) := by
+  induction ts with
+  | nil => rfl
+  | cons d ts ih =>
+    by_cases hd : 0 ≤ d
+    · by_cases hL : absIdx w d + n > L
+      · simp [hd, hL, win_cons, ih]
+      · simp [hd, hL, win_cons, ih]
+    · simp [hd, ih]
+
+/-- what the counter answers when asked at a time that is not before anything it has seen -/
+theorem KInv.read {n : Nat} {w : Int} {c : RC} {ts : List Int} {H : Nat} (hn : 0 < n) (I : KInv n w c ts H)
+    (t : Int) (ht : 0 ≤ t) (hb : H ≤ absIdx w t) :
+    (c.sumAt t).2 = ((ts.filter fun d => decide (0 ≤ d) && decide (absIdx w d + n > absIdx w t)).length : Int) := by
+  obtain ⟨hc, I, hl, hh⟩ := I
+  have I' := I.advance hn (.sum t) t rfl rfl rfl
+  show (c.advance t).1.rolling = _
+  rw [I'.rel.roll, I'.last, hi_cons_time w hc (.sum t) t rfl, if_neg (by omega), counted_sum]
+  have hm : max (absIdx w t) (hi w hc) = absIdx w t := by omega
+  rw [hm]
+  unfold counted
+  rw [hl]
+  exact win_times n w (absIdx w t) ts
+
+/-- a fresh counter fed increments none of which is after `now`, read at `now` -/
+theorem incAll_read {n : Nat} {w : Int} (hn : 0 < n) (hw : 0 < w) (now : Int) (h0 : 0 ≤ now) (ts : List Int)
+    (h : ∀ t ∈ ts, t ≤ now) :
+    ((incAll (RC.new n w) ts).sumAt now).2
+      = ((ts.filter fun d => decide (0 ≤ d) && decide (absIdx w d + n > absIdx w now)).length : Int) := by
+  have I := KInv.incAll hn hw now ts (RC.new n w) [] (KInv.new n w hn _) h
+  rw [I.read hn now h0 (Nat.le_refl _), List.append_nil, List.filter_reverse, List.length_reverse]
+
+theorem timesOf_filter_length (k : Kind) (p : Int → Bool) (l : List (Kind × Int × Int)) :
+    ((timesOf k l).filter p).length = (l.filter fun (k', t, _) => k' == k && p t).length := by
+  induction l with
+  | nil => rfl
+  | cons x l ih =>
+    obtain ⟨k', t, d⟩ := x
+    unfold timesOf at ih ⊢
+    by_cases hk : (k' == k) = true
+    · by_cases hp : p t = true
+      · simp [hk, hp, ih]
+      · simp [hk, hp, ih]
+    · simp [hk, ih]
+
+theorem mem_timesOf {k : Kind} {t : Int} {emits : List Emit} (h : t ∈ timesOf k (emits.filterMap runOf)) :
+    ∃ d, Emit.run k t d ∈ emits := by
+  unfold timesOf at h
+  obtain ⟨⟨k', t', d⟩, hx, rfl⟩ := List.mem_map.mp h
+  obtain ⟨hx, hk⟩ := List.mem_filter.mp hx
+  obtain ⟨e, he, hr⟩ := List.mem_filterMap.mp hx
+  have hk' : k' = k := by simpa using hk
+  subst hk'
+  cases e with
+  | run k'' t'' d'' =>
+    simp only [runOf_run, Option.some.injEq, Prod.mk.injEq] at hr
+    obtain ⟨rfl, rfl, rfl⟩ := hr
+    exact ⟨_, he⟩
+  | fb _ _ _ => simp at hr
+  | opened _ => simp at hr
+  | closed _ => simp at hr
+
+/-- the rolling sum of the counter of kind `k`, read at a `now` that no delivered run event is after -/
+theorem rolling_getR (k : Kind) (n : Nat) (dur : Int) (pn : Nat) (pdur : Int) (psize : Nat) (mh : Int)
+    (hn : 0 < n) (hw : 0 < tdiv dur n) (emits : List Emit) (now : Int) (h0 : 0 ≤ now)
+    (hle : ∀ k t d, Emit.run k t d ∈ emits → t ≤ now) :
+    ((getR k ((All.new n dur pn pdur psize mh).feed emits).run).sumAt now).2
+      = rolling n (tdiv dur n) (emits.foldl Hist.add {}) k now := by
+  unfold rolling
+  rw [feed_getR, hist_run]
+  show ((incAll (getR k (RunStats.new n dur pn pdur psize)) _).sumAt now).2 = _
+  rw [getR_new, incAll_read hn hw now h0, timesOf_filter_length]
+  · congr 2
+    apply List.filter_congr
+    rintro ⟨k', t, d⟩ _
+    simp only [Bool.and_assoc]
+  · intro t ht
+    obtain ⟨d, hd⟩ := mem_timesOf ht
+    exact hle k t d hd
+
+theorem sums_snd (r : RunStats) (now : Int) :
+    (r.sums now).2 = kinds.map fun k => ((getR k r).sumAt now).2 := rfl
+
+theorem totals_eq (r : RunStats) : r.totals = kinds.map fun k => (getR k r).total := rfl
+
+/-! ### the SLO tracker -/
+
+def passB (mh : Int) : Kind × Int × Int → Bool :=
+  fun (k, _, d) => k == .success && decide (d ≤ mh)
+
+def failB (mh : Int) : Kind × Int × Int → Bool :=
+  fun (k, _, d) =>
+    (k == .success && decide (d > mh)) || k == .failure || k == .timeout || k == .reject || k == .shortCircuit ||
+    (k == .interrupt && decide (d > mh))
+
+theorem sloPass_eq (mh : Int) (h : Hist) : sloPass mh h = ((h.run.filter (passB mh)).length : Int) := rfl
+theorem sloFail_eq (mh : Int) (h : Hist) : sloFail mh h = ((h.run.filter (failB mh)).length : Int) := rfl
+
+theorem slo_onRun_spec (s : Slo) (k : Kind) (t d : Int) :
+    (s.onRun k d).maxHealthy = s.maxHealthy ∧
+    (s.onRun k d).pass = s.pass + (if passB s.maxHealthy (k, t, d) = true then 1 else 0) ∧
+    (s.onRun k d).fail = s.fail + (if failB s.maxHealthy (k, t, d) = true then 1 else 0) := by
+  by_cases h : d ≤ s.maxHealthy
+  · have h' : ¬ d > s.maxHealthy := by omega
+    cases k <;> simp [Slo.onRun, passB, failB, h, h']
+  · have h' : d > s.maxHealthy := by omega
+    cases k <;> simp [Slo.onRun, passB, failB, h, h']
+
+/-- the tracker driven by the run events `l` (oldest first) -/
+def sloAll (s : Slo) (l : List (Kind × Int × Int)) : Slo := l.foldl (fun s p => s.onRun p.1 p.2.2) s
+
+theorem sloAll_cons (s : Slo) (p : Kind × Int × Int) (l : List (Kind × Int × Int)) :
+    sloAll s (p :: l) = sloAll (s.onRun p.1 p.2.2) l := rfl
+
+theorem sloAll_spec : ∀ (l : List (Kind × Int × Int)) (s : Slo),
+    (sloAll s l).maxHealthy = s.maxHealthy ∧
+    (sloAll s l).pass = s.pass + ((l.filter (passB s.maxHealthy)).length : Int) ∧
+    (sloAll s l).fail = s.fail + ((l.filter (failB s.maxHealthy)).length : Int)
+  | [], s => by simp [sloAll]
+  | (k, t, d) :: l, s => by
+    obtain ⟨h1, h2, h3⟩ := slo_onRun_spec s k t d
+    obtain ⟨i1, i2, i3⟩ := sloAll_spec l (s.onRun k d)
+    rw [sloAll_cons]
+    simp only
+    rw [h1] at i1 i2 i3
+    refine ⟨i1, ?_, ?_⟩
+    · rw [i2, h2, List.filter_cons]
+      split
+      · rw [List.length_cons]; push_cast; omega
+      · omega
+    · rw [i3, h3, List.filter_cons]
+      split
+      · rw [List.length_cons]; push_cast; omega
+      · omega
+
+theorem feed_slo : ∀ (emits : List Emit) (a : All), (a.feed emits).slo = sloAll a.slo (emits.filterMap runOf)
+  | [], _ => rfl
+  | e :: emits, a => by
+    rw [feed_cons, feed_slo emits]
+    cases e <;> rfl
+
+theorem slo_feed (n : Nat) (dur : Int) (pn : Nat) (pdur : Int) (psize : Nat) (mh : Int) (emits : List Emit) :
+    ((All.new n dur pn pdur psize mh).feed emits).slo.pass = sloPass mh (emits.foldl Hist.add {}) ∧
+    ((All.new n dur pn pdur psize mh).feed emits).slo.fail = sloFail mh (emits.foldl Hist.add {}) ∧
+    ((All.new n dur pn pdur psize mh).feed emits).slo.maxHealthy = mh := by
+  rw [feed_slo, sloPass_eq, sloFail_eq, hist_run]
+  obtain ⟨h1, h2, h3⟩ := sloAll_spec (emits.filterMap runOf) (All.new n dur pn pdur psize mh).slo
+  have hm : (All.new n dur pn pdur psize mh).slo.maxHealthy = mh := rfl
+  rw [hm] at h1 h2 h3
+  refine ⟨?_, ?_, h1⟩
+  · rw [h2]; show (0 : Int) + _ = _; omega
+  · rw [h3]; show (0 : Int) + _ = _; omega
+
+/-! ### the error percentage -/
+
+theorem errorPercentage_eq (s f t : Int) (hs : 0 ≤ s) (hf : 0 ≤ f) (ht : 0 ≤ t)
+    (hb : s + f + t ≤ 9007199254740992) :
+    errorPercentage s f t
+      = (if s + f + t = 0 then 0 else F64.rne (((f + t : Int) : Rat) / ((s + f + t : Int) : Rat))) := by
+  have e53 : (2 : Int) ^ 53 = 9007199254740992 := by norm_num
+  have h1 : F64.rne ((f + t : Int) : Rat) = ((f + t : Int) : Rat) :=
+    F64.rne_int (f + t) (by rw [abs_of_nonneg (by omega), e53]; omega)
+  have h2 : F64.rne ((s + f + t : Int) : Rat) = ((s + f + t : Int) : Rat) :=
+    F64.rne_int (s + f + t) (by rw [abs_of_nonneg (by omega), e53]; omega)
+  unfold errorPercentage F64.div F64.ofInt
+  simp only
+  rw [h1, h2]
+
+theorem errorPercentage_bounds (s f t : Int) (hs : 0 ≤ s) (hf : 0 ≤ f) (ht : 0 ≤ t)
+    (hb : s + f + t ≤ 9007199254740992) :
+    0 ≤ errorPercentage s f t ∧ errorPercentage s f t ≤ 1 := by
+  rw [errorPercentage_eq s f t hs hf ht hb]
+  split
+  · exact ⟨le_refl _, by norm_num⟩
+  · rename_i hne
+    have hpos : (0 : Rat) < ((s + f + t : Int) : Rat) := by
+      have : 0 < s + f + t := by omega
+      exact_mod_cast this
+    have hnum : (0 : Rat) ≤ ((f + t : Int) : Rat) := by
+      have : 0 ≤ f + t := by omega
+      exact_mod_cast this
+    have hle : ((f + t : Int) : Rat) ≤ ((s + f + t : Int) : Rat) := by
+      have : f + t ≤ s + f + t := by omega
+      exact_mod_cast this
+    exact ⟨F64.rne_nonneg (div_nonneg hnum (le_of_lt hpos)), F64.rne_le_one ((div_le_one hpos).mpr hle)⟩
+
 end CM.Cons
